@@ -891,6 +891,11 @@ def run_case(case, ch: Choices) -> RunResult:
         alias_seen = None        # (the expression generator's record, see below)
         eg = ExprGen(ch, schema, snake)
         client = make_client(live)
+        # an application that creates a client per request: every operation of the history goes through a client object of its
+        # own (the built objects the caller keeps are the same ones throughout)
+        client_per_operation = ch.chance("h.client_per_operation", 1, 4)
+        if client_per_operation:
+            res.bump("history.client_object_per_operation")
         nops = p.get("nops") or (2 + ch.draw("h.nops", 11))
         kinds = ["query"] + (["mutation"] if schema.mutation_type else [])
         history: List[dict] = []
@@ -930,6 +935,8 @@ def run_case(case, ch: Choices) -> RunResult:
                 op = eg.operation(ch.pick("h.kind", kinds), i)
                 if op is None:
                     continue
+            if client_per_operation and i > 0:
+                client = make_client(live)
             try:
                 cap, exc = send(client, op, live, prebuilt, partner)
                 if prebuilt is None and last_built[0]:
